@@ -128,6 +128,8 @@ def generate(rng, tier, idx):
         k = rng.choice(['verify', 'verify', 'verify-kg', 'update', 'update', 'update-sub', 'verify-sub', 'lookup'])
         o = {'op': k, 'api': rng.choice(['cli', 'lib']), 'profile': rng.choice(['default', 'default', 'ebuild', 'old-ebuild']),
              'hashes': rng.choice([['SHA256'], ['MD5', 'SHA1'], None])}
+        if rng.random() < 0.12:
+            o['hashes'] = rng.choice([['SHAKE_128'], ['SHA256', 'SHAKE_256'], ['FOO'], ['SHA224'], ['sha256'], ['SHA3_384', 'MD5'], ['BLAKE2S']])
         if k in ('update-sub', 'verify-sub') and subs:
             o['path'] = rng.choice(subs)
         if k == 'lookup':
@@ -177,7 +179,8 @@ def apply_damage(w, sc, d):
         repl_path(sl[1] if len(sl) > 1 else 'x')
         if len(sl) >= 5:
             s2 = list(sl)
-            s2[3] = 'NOPE'
+            # (names the table does not know, among them names hashlib does know - some of which need arguments)
+            s2[3] = ('NOPE', 'SHAKE_128', 'SHAKE_256', 'SHA224', 'SHA384', 'SHA3_224', 'shake_128', 'MD4', 'SM3', 'BLAKE2S')[idx % 10]
             lines[idx] = ' '.join(s2)
     elif k == 'whirlpool':
         lines.append('DATA wp-file 3 WHIRLPOOL 00')
